@@ -129,10 +129,20 @@ func runNative(overlay map[string]string, all []harnessRef, rel string, cases []
 		args = append(args, "-race")
 	}
 	args = append(args, "-run", "^TestZZReplay$", "./"+rel+"/")
-	cmd := exec.Command("go", args...)
-	cmd.Dir = repoRoot()
-	cmd.Env = append(goEnv(), "VERIF_TAPES="+tapes, "VERIF_OUT="+outFile)
-	outb, err := cmd.CombinedOutput()
+	var outb []byte
+	var err error
+	// Whether the race detector sees a race depends on the interleaving the Go scheduler happens to pick (the
+	// mutex of the fake API server orders some of them): a replay under -race that stays silent is repeated
+	// a few times before the counterexample is declared not reproduced.
+	for attempt := 0; attempt < 5; attempt++ {
+		cmd := exec.Command("go", args...)
+		cmd.Dir = repoRoot()
+		cmd.Env = append(goEnv(), "VERIF_TAPES="+tapes, "VERIF_OUT="+outFile)
+		outb, err = cmd.CombinedOutput()
+		if !nativeRace || strings.Contains(string(outb), "WARNING: DATA RACE") {
+			break
+		}
+	}
 	os.WriteFile(filepath.Join(dir, "gotest.log"), outb, 0o644)
 	data, rerr := os.ReadFile(outFile)
 	if rerr != nil {
@@ -583,35 +593,35 @@ func (rp *report) finish(wall time.Duration) int {
 			"samples":                       samples,
 			"explanation": "bounded symbolic execution of the repository's go/ssa: states = complete symbolic paths explored (each stands for every input satisfying its path condition), " +
 				"transitions = solver-decided branch decisions, traces_validated = native go test replays of solver models whose assertion outcome and observed outputs agreed with the engine",
-			"exhaustive":              len(inconclusive) == 0,
-			"exhaustive_note":         "all feasible paths of the harnesses within the stated input bounds were explored; nothing is claimed outside the bounds",
-			"functions_encoded":       repoFns,
+			"exhaustive":                    len(inconclusive) == 0,
+			"exhaustive_note":               "all feasible paths of the harnesses within the stated input bounds were explored; nothing is claimed outside the bounds",
+			"functions_encoded":             repoFns,
 			"library_functions_interpreted": libCount,
-			"library_functions_top":   libFns,
-			"bounds":                  bounds,
-			"assertions":              assertIDs,
-			"assertion_evaluations":   asserts,
-			"assertion_solver_checks": assertsSym,
-			"obligations":             oblig + assertsSym,
-			"discharged":              discharged + assertsSym - nViol,
-			"arith_obligations":       oblig,
-			"arith_discharged":        discharged,
-			"reach_twins":             reachTotal,
-			"reach_witnessed":         reachWitnessed,
-			"intrinsics":              intr,
-			"path_ends":               ends,
-			"harnesses":               perHarness,
+			"library_functions_top":         libFns,
+			"bounds":                        bounds,
+			"assertions":                    assertIDs,
+			"assertion_evaluations":         asserts,
+			"assertion_solver_checks":       assertsSym,
+			"obligations":                   oblig + assertsSym,
+			"discharged":                    discharged + assertsSym - nViol,
+			"arith_obligations":             oblig,
+			"arith_discharged":              discharged,
+			"reach_twins":                   reachTotal,
+			"reach_witnessed":               reachWitnessed,
+			"intrinsics":                    intr,
+			"path_ends":                     ends,
+			"harnesses":                     perHarness,
 			"solver": map[string]interface{}{
 				"name": o.Solver, "queries": queries, "total_s": round(solverTime.Seconds()), "max_query_s": round(solverMax.Seconds()),
 				"second_solver": crossSolver, "discharged_queries_rechecked_by_second_solver": crossChecked,
 			},
-			"native_replays":       rp.replayed,
-			"native_replay_s":      round(rp.nativeTime.Seconds()),
-			"load_s":               round(rp.loadTime.Seconds()),
-			"inconclusive":         inconclusive,
-			"known_findings_seen":  knownSeen(rp),
-			"repo_head":            repoHead(),
-			"regenerated_from":     repoRoot() + " working tree (go/packages + go/ssa on every run)",
+			"native_replays":      rp.replayed,
+			"native_replay_s":     round(rp.nativeTime.Seconds()),
+			"load_s":              round(rp.loadTime.Seconds()),
+			"inconclusive":        inconclusive,
+			"known_findings_seen": knownSeen(rp),
+			"repo_head":           repoHead(),
+			"regenerated_from":    repoRoot() + " working tree (go/packages + go/ssa on every run)",
 		},
 		Assumptions: assumptionsFor(o.Property),
 	}
